@@ -892,7 +892,18 @@ impl Engine for C14 {
                 Ok(Ok(r)) => {
                     obs.u64(1);
                     // the data is intact whatever failed in between: an answer must be THE answer
-                    match (observe(&r), &t0_obs) {
+                    // class entries handed out under other names: entries are compared by what they ARE (classes by
+                    // their own name), since nothing says under which entry name an untouched class has to come back
+                    let rekey = |m: &BTreeMap<String, Obs>| -> BTreeMap<String, Obs> {
+                        m.iter()
+                            .map(|(k, v)| match v {
+                                Obs::Class(b) => (refclass::parse(b).ok().and_then(|s| s.this_class.to_str()).map(|n| format!("class {n}")).unwrap_or_else(|| k.clone()), v.clone()),
+                                _ => (k.clone(), v.clone()),
+                            })
+                            .collect()
+                    };
+                    let t0_cmp = if lp.odd_names { t0_obs.as_ref().map(&rekey) } else { t0_obs.clone() };
+                    match (observe(&r).map(|o| if lp.odd_names { rekey(&o) } else { o }), &t0_cmp) {
                         (Ok(o), Some(t0)) => {
                             if failed {
                                 st.probe("lazy.ok_after_failed_entry_operation");
